@@ -20,6 +20,7 @@ impl<V: Ord> CvRDT for MinReg<V> {
     type Validation = Infallible;
     open spec fn cv_inv(&self) -> bool { ord_ok::<V>() }
     open spec fn cv_pre(&self, other: &Self) -> bool { true }
+    open spec fn cv_post(old_: &Self, other: &Self, new_: &Self) -> bool { true }
 
 //@extract fn src/minreg.rs "CvRDT for MinReg" validate_merge
     fn validate_merge(&self, _other: &Self) -> /*@ (r: @*/ Result<(), Self::Validation> /*@ ) @*/
@@ -44,6 +45,7 @@ impl<V: Ord> CmRDT for MinReg<V> {
     type Validation = Infallible;
     open spec fn cm_inv(&self) -> bool { ord_ok::<V>() }
     open spec fn cm_pre(&self, op: &V) -> bool { true }
+    open spec fn cm_post(old_: &Self, op: &V, new_: &Self) -> bool { true }
 
 //@extract fn src/minreg.rs "CmRDT for MinReg" validate_op
     fn validate_op(&self, _op: &Self::Op) -> /*@ (r: @*/ Result<(), Self::Validation> /*@ ) @*/
